@@ -333,10 +333,10 @@ class Ctx:
             self.cov["traces_validated_against_impl"] += n_traces
             if n_traces and tamper and module not in self._tampered and len(events) >= 4 and r.wall < 60:
                 self._tampered.add(module)
-                self._tamper_probe(spec_subdir, module, cfg, events, kw)
+                self._tamper_probe(spec_subdir, module, cfg, events, kw, r.wall)
         return r
 
-    def _tamper_probe(self, spec_subdir, module, cfg, events, kw):
+    def _tamper_probe(self, spec_subdir, module, cfg, events, kw, base_wall=0.0):
         """Binding demonstration (anti-vacuity of a trace specification): the accepted trace is tampered with - one
         recorded event removed (= one hook missing) or recorded twice - and the trace specification must reject at
         least one of the tampered copies; otherwise it constrains nothing and the check is inconclusive."""
@@ -361,6 +361,13 @@ class Ctx:
                 else:
                     continue
                 probes.append(("field", i, events[:i] + [e2] + events[i + 1:]))
+        if base_wall > 2.5:   # keep the demonstration cheap for slow trace specifications: one probe per kind
+            keep, seen = [], set()
+            for pr in (probes[1], probes[3]) + tuple(probes[4:]):
+                if pr[0] not in seen:
+                    seen.add(pr[0])
+                    keep.append(pr)
+            probes = keep
         rejected = 0
         tdir = os.path.join(self.work, "tamper")
         os.makedirs(tdir, exist_ok=True)
